@@ -154,6 +154,27 @@ func IfInit(m map[string]int, k string) int {
 	return -1
 }
 
+// FallJoin: a switch whose clauses fall through and cannot leave, assigning two variables, one clause partial (index);
+// what follows the switch is translated once (joinSwitch).
+func FallJoin(s string, n int) int {
+	var a, c uint32 = 1, 2
+	switch n {
+	case 3:
+		c += uint32(s[2]) << 24
+		fallthrough
+	case 2:
+		a += uint32(s[1]) << 8
+		fallthrough
+	case 1:
+		a += uint32(s[0])
+	case 7:
+		c = 9
+	}
+	a -= c
+	c ^= a >> 3
+	return int(a) + int(c)
+}
+
 func Panics(x int) int {
 	if x < 0 {
 		panic("negative")
